@@ -251,69 +251,152 @@ def _noop_reason(cname, kw, dlabel):
     return None
 
 
-def rule_extent(cx, rid):
+_EXT_CACHE = {}
+
+
+def _extent_worker(chunk):
     pm = mod(PARSER)
-    r = cx.rule(rid, "every block-extent decision compares _indent_of(line) with the header's _indent_of and is preceded by a skip of blank and comment-only lines; _collect_block ends a block exactly at the first code line with indent <= base; continuation headers (elif/else/except) must sit exactly at the header's indent", floor=10)
-    collectors = ["_collect_block", "_collect_if_structure", "_collect_try_structure"]
-    sites = 0
-    scan_fns = [(q, pm.func(q)) for q in collectors] + [("_parse_simple_lines", pm.func("_parse_simple_lines"))]
-    for q, fn in scan_fns:
-        fn_defs = Locals(fn).defs
-        loops = [n for n in walk_local(fn, include_self=False) if isinstance(n, ast.While)]
-        found_here = 0
-        for lp in loops:
-            if q == "_parse_simple_lines" and norm(lp.test) == "i < len(snippet)":
-                continue  # the dispatch loop itself; the probing loops inside it are scanned below
-            assigns = {}
-            skip_seen = []  # inlined texts of lines proven non-blank/non-comment so far
-            for st in lp.body:
-                if isinstance(st, ast.Assign) and len(st.targets) == 1 and isinstance(st.targets[0], ast.Name):
-                    assigns[st.targets[0].id] = st.value
-                    continue
-                if isinstance(st, ast.If):
-                    t = st.test
-                    # skip idiom: `if not <stripped text>: ...; continue`
-                    if isinstance(t, ast.UnaryOp) and isinstance(t.op, ast.Not) and st.body and isinstance(st.body[-1], ast.Continue):
-                        txt = _inline(t.operand, assigns)
-                        skip_seen.append(txt)
-                        continue
-                    cmp_nodes = [c for c in ast.walk(t) if isinstance(c, ast.Compare) and any(isinstance(x, ast.Call) and call_name(x) == "_indent_of" for x in ast.walk(c))]
-                    exits = [x for x in walk_local(st) if isinstance(x, (ast.Break, ast.Return))]
-                    if cmp_nodes and exits and any(_loop_of(pm, x) is lp or isinstance(x, ast.Return) for x in exits):
-                        c = cmp_nodes[0]
-                        sites += 1
-                        found_here += 1
-                        ind_calls = [x for x in ast.walk(c) if isinstance(x, ast.Call) and call_name(x) == "_indent_of"]
-                        line_txt = _inline(ind_calls[0].args[0], assigns)
-                        want1 = f"_strip_inline_comment({line_txt}).strip()"
-                        ok_skip = any(s == want1 for s in skip_seen)
-                        r.check(ok_skip, f"{q}/extent[{norm(c)}]/skips-blank-and-comment", (pm, st), f"block extent is decided on `{norm(c)}` without first skipping blank AND comment-only lines ({line_txt}); a comment at a shallower column would end the block", sample=f"{q}: {norm(c)} after skip of {want1}")
-                        # the other side must be the header's own indent
-                        other = c.comparators[0] if c.left is ind_calls[0] or any(x is ind_calls[0] for x in ast.walk(c.left)) else c.left
-                        base_defs = [other]
-                        if isinstance(other, ast.Name):
-                            base_defs = fn_defs.get(other.id, []) or [other]
-                        ok_base = all(isinstance(b, ast.Call) and call_name(b) == "_indent_of" for b in base_defs)
-                        r.check(ok_base, f"{q}/extent[{norm(c)}]/base-is-header-indent", (pm, st), f"`{norm(other)}` is not the header line's _indent_of value")
-                        # operator oracle
-                        op = type(c.ops[0]).__name__
-                        left_is_line = c.left is ind_calls[0]
-                        if q == "_collect_block":
-                            good = (left_is_line and op == "LtE") or (not left_is_line and op == "GtE")
-                            r.check(good, f"{q}/extent-operator", (pm, st), f"a block must end at the first code line with indent <= base, found `{norm(c)}`")
-                        else:
-                            good = op == "NotEq"
-                            r.check(good, f"{q}/continuation-operator[{norm(c)}]", (pm, st), f"elif/else/except continuation must be probed at exactly the header's indent (`!=` ends the probe), found `{norm(c)}`")
-        if q in collectors:
-            r.check(found_here >= 1, f"{q}/extent-decided-by-indent_of", (pm, fn), f"{q} no longer decides block extent through an _indent_of comparison")
-    if sites < 5:
-        raise AnalysisError(f"only {sites} block-extent sites recognised (confirmed: 5)")
-    # who may decide extents: any other function slicing the line list on indentation
-    for q, fn in pm.funcs.items():
-        if q in collectors or q in ("_parse_simple_lines", "parse", "_indent_of") or q.startswith("_parse_simple_lines."):
-            continue
-        uses = [n for n in walk_local(fn, include_self=False) if isinstance(n, ast.Call) and call_name(n) == "_indent_of"]
-        r.check(not uses, f"{q}/new-extent-site", (pm, fn), f"{q} measures indentation: an unreviewed block-extent decision")
+    out = []
+    for q, lines in chunk:
+        try:
+            o = dl.Interp(pm).call(pm.func(q), [list(lines), 1])
+            val = o.value
+            if o.kind == "return" and isinstance(val, tuple):
+                val = tuple(val)
+            out.append(((q, lines), o.kind, val, None))
+        except dl.Unsupported as e:
+            out.append(((q, lines), None, None, f"{q} left the evaluable subset: {e}"))
+    return out
+
+
+def rule_extent(cx, rid):
+    """block extents decided by evaluation: _collect_block / _collect_if_structure / _collect_try_structure are run (checker's
+    interpreter) on every line sequence up to length four over an alphabet of line kinds after a header at column 4, and
+    compared with Python's block structure: a block is the run of following code lines indented deeper than its header;
+    blank and comment-only lines, at any column, neither end nor start anything; continuation headers belong to the
+    statement only at exactly the header's column"""
+    pm = mod(PARSER)
+    r = cx.rule(rid, "for every sequence of up to 3 lines (4 over the core kinds) (deeper / same-level / shallower code, blank, blanks-only, comments at columns 0, 4 and 8, code with a trailing comment, continuation headers at three columns) after a header at column 4: the collectors return exactly the code lines Python assigns to the statement and resume at the first code line after it", floor=3000, exhaustive=True)
+    K = {"D": "        y = 1", "S": "    z = 2", "U": "w = 3", "B": "", "W": "      ", "C0": "# c", "C4": "    # c", "C8": "        # c", "T": "        y = 2  # c"}
+    CONT = {"if": {"EF": "    elif q:", "EL": "    else:  # alt", "EL0": "else:", "EL8": "        else:"}, "try": {"X": "    except Exception:", "XB": "    except:  # any", "X0": "except Exception:", "X8": "        except Exception:"}}
+    is_code = lambda l_: bool(l_.split("#")[0].strip())
+    try:
+        tabw = dl.Interp(pm).call(pm.func("_indent_of"), ["\tx"]).value
+    except dl.Unsupported as e:
+        raise AnalysisError(f"_indent_of left the evaluable subset: {e}")
+    if not isinstance(tabw, int) or tabw < 1:
+        raise AnalysisError(f"_indent_of gives a tab the width {tabw!r}")
+
+    def indent(l_):
+        n_ = 0
+        for ch in l_:
+            if ch == " ":
+                n_ += 1
+            elif ch == "\t":
+                n_ += tabw
+            else:
+                break
+        return n_
+    # the same kinds for tab-indented sources (header one tab deep)
+    KT = {"D": "\t\ty = 1", "S": "\tz = 2", "U": "w = 3", "B": "", "C0": "# c", "C4": "\t# c", "M": "\t    y = 3"}
+    CONT_T = {"if": {"EF": "\telif q:", "EL": "\telse:", "EL8": "\t\telse:"}, "try": {"X": "\texcept Exception:", "X8": "\t\texcept Exception:"}}
+
+    def ref_block(lines, start):
+        base, i, code = indent(lines[start]), start + 1, []
+        while i < len(lines):
+            if not is_code(lines[i]):
+                i += 1
+                continue
+            if indent(lines[i]) <= base:
+                break
+            code.append(i)
+            i += 1
+        return code, i
+
+    def next_code(lines, i):
+        while i < len(lines) and not is_code(lines[i]):
+            i += 1
+        return i
+
+    def ref_struct(lines, start, heads):
+        base = indent(lines[start])
+        code, i = ref_block(lines, start)
+        code = [start] + code
+        while True:
+            j = next_code(lines, i)
+            if j < len(lines) and indent(lines[j]) == base and lines[j].split("#")[0].strip().split(" ")[0].rstrip(":") in heads:
+                more, i = ref_block(lines, j)
+                code += [j] + more
+                continue
+            return code, j
+
+    def run(fn, lines, start):
+        return _EXT_CACHE[(fn.name, tuple(lines))]
+
+    plan = (("_collect_block", "    while go:", dict(K), None),
+            ("_collect_if_structure", "    if p:", {**{k_: K[k_] for k_ in ("D", "S", "U", "B", "C0", "C4")}, **CONT["if"]}, ("elif", "else")),
+            ("_collect_try_structure", "    try:", {**{k_: K[k_] for k_ in ("D", "S", "U", "B", "C0", "C4")}, **CONT["try"]}, ("except",)))
+
+    plan = plan + (("_collect_block", "\twhile go:", dict(KT), None),
+                   ("_collect_if_structure", "\tif p:", {**KT, **CONT_T["if"]}, ("elif", "else")),
+                   ("_collect_try_structure", "\ttry:", {**KT, **CONT_T["try"]}, ("except",)))
+
+    def seqs_of(alphabet):
+        names = sorted(alphabet)
+        if any("\t" in v_ for v_ in alphabet.values()):
+            return list(itertools.chain(*[itertools.product(names, repeat=L) for L in range(0, 4)]))
+        core_names = [k_ for k_ in names if k_ in ("D", "S", "B", "C4", "C0", "U", "EF", "EL", "X")]
+        return list(itertools.chain(*[itertools.product(names, repeat=L) for L in range(0, 4)], itertools.product(core_names, repeat=4)))
+
+    jobs = [(q, tuple(["x = 0", header] + [alphabet[k_] for k_ in seq])) for q, header, alphabet, _h in plan for seq in seqs_of(alphabet)]
+    _EXT_CACHE.clear()
+    import concurrent.futures as cf
+    workers = min(12, os.cpu_count() or 2)
+    chunks = [jobs[i::workers] for i in range(workers)]
+    try:
+        with cf.ProcessPoolExecutor(max_workers=workers) as ex:
+            parts = list(ex.map(_extent_worker, chunks))
+    except Exception:
+        parts = [_extent_worker(c_) for c_ in chunks]
+    for part in parts:
+        for key_, kind_, val_, err_ in part:
+            if err_:
+                raise AnalysisError(err_)
+            _EXT_CACHE[key_] = dl.Outcome(kind_, val_)
+    n_bad = {}
+    for q, header, alphabet, heads in plan:
+        fn = pm.func(q)
+        for seq in seqs_of(alphabet):
+            if True:
+                lines = ["x = 0", header] + [alphabet[k_] for k_ in seq]
+                start = 1
+                out = run(fn, lines, start)
+                if heads is None:
+                    want_code, want_i = ref_block(lines, start)
+                    want_next = next_code(lines, want_i)
+                else:
+                    want_code, want_next = ref_struct(lines, start, heads)
+                ok = out.kind == "return" and isinstance(out.value, (tuple, list)) and len(out.value) == 2 and isinstance(out.value[0], list) and isinstance(out.value[1], int)
+                why = f"-> {out!r}"
+                if ok:
+                    blk, ret_i = out.value
+                    first = start if heads is not None else start + 1
+                    contiguous = blk == lines[first:first + len(blk)]
+                    got_code = [first + k_ for k_, l_ in enumerate(blk) if is_code(l_)]
+                    got_next = next_code(lines, ret_i) if 0 <= ret_i <= len(lines) else -1
+                    ok = contiguous and got_code == want_code and got_next == want_next and first + len(blk) <= max(ret_i, first)
+                    why = f"returns code lines {got_code} and resumes at line {got_next}; Python's structure: code lines {want_code}, next statement at line {want_next}"
+                if ok:
+                    r.ok(None)
+                else:
+                    n_bad[q] = n_bad.get(q, 0) + 1
+                    if n_bad[q] <= 2:
+                        kinds = [k_ for k_ in seq]
+                        tag = "comment-or-blank-line" if any(k_ in ("B", "W", "C0", "C4", "C8") for k_ in kinds) else "continuation-header" if any(k_ in CONT["if"] or k_ in CONT["try"] for k_ in kinds) else "code-lines"
+                        r.fail(f"{q}/extent[{tag}]", (pm, fn), f"{q} on {lines[1:]!r}: {why}", detail={"lines": lines, "start": start})
+                    else:
+                        r.stat.obligations += 1
+                        r.stat.failed += 1
     return r
 
 
